@@ -47,6 +47,10 @@ TRANSPARENT = {
     "alloc::sync::Arc::<T>::new": [0],
     "std::path::Path::to_path_buf": [0], "std::path::PathBuf::into_os_string": [0], "std::path::Path::as_os_str": [0],
     "std::path::Path::new": [0], "std::path::PathBuf::as_path": [0],
+    "std::ffi::os_str::OsStr::to_os_string": [0], "std::ffi::os_str::OsString::as_os_str": [0],
+    "std::ffi::os_str::OsStr::new": [0], "std::path::PathBuf::into_boxed_path": [0], "std::path::Path::into_path_buf": [0],
+    "std::ffi::os_str::OsString::into_boxed_os_str": [0], "std::ffi::os_str::OsStr::into_os_string": [0],
+    "std::path::Path::to_owned": [0], "alloc::borrow::Cow::<'_, B>::into_owned": [0], "alloc::boxed::Box::<T>::new": [0],
     "std::fs::canonicalize": [0], "std::path::Path::canonicalize": [0],
     "std::path::Path::join": [0],            # x.join(rel) stays in x's tree
     "walkdir::WalkDir::new": [0], "walkdir::WalkDir::follow_links": [0], "walkdir::IntoIter::filter_entry": [0],
@@ -71,6 +75,20 @@ PRODUCES = {
     "std::path::Path::strip_prefix": REL,
     "std::path::Path::components": REL,
     "core::iter::traits::double_ended::DoubleEndedIterator::next_back": REL,
+}
+# combinators that hand (part of) their receiver to a closure: the closure's first parameter takes the receiver's role
+ITEM_TO_CLOSURE = {
+    "core::option::Option::<T>::is_some_and", "core::option::Option::<T>::is_none_or", "core::option::Option::<T>::map",
+    "core::option::Option::<T>::and_then", "core::option::Option::<T>::map_or", "core::option::Option::<T>::map_or_else",
+    "core::option::Option::<T>::filter", "core::option::Option::<T>::inspect",
+    "core::result::Result::<T, E>::is_ok_and", "core::result::Result::<T, E>::map", "core::result::Result::<T, E>::and_then",
+    "core::result::Result::<T, E>::map_or", "core::result::Result::<T, E>::map_or_else", "core::result::Result::<T, E>::inspect",
+    "core::iter::traits::iterator::Iterator::map", "core::iter::traits::iterator::Iterator::filter",
+    "core::iter::traits::iterator::Iterator::filter_map", "core::iter::traits::iterator::Iterator::for_each",
+    "core::iter::traits::iterator::Iterator::try_for_each", "core::iter::traits::iterator::Iterator::any",
+    "core::iter::traits::iterator::Iterator::all", "core::iter::traits::iterator::Iterator::find",
+    "core::iter::traits::iterator::Iterator::find_map", "core::iter::traits::iterator::Iterator::flat_map",
+    "core::iter::traits::iterator::Iterator::inspect", "core::iter::traits::iterator::Iterator::position",
 }
 # in-place mutation: callee(arg0 = &mut X, arg1) makes X absorb arg1's role
 ABSORBS = {"std::ffi::os_str::OsString::push": (0, 1), "std::path::PathBuf::push": (0, 1)}
@@ -223,6 +241,12 @@ class Roles:
                                 if self._set(tgt, i + 1, self.operand_role(f, a)):
                                     changed = True
                     # closures invoked through Fn* traits: upvars resolve through closure_parent
+                    if o in ITEM_TO_CLOSURE and args:
+                        for fv in t["fn"].get("fnvals", []):
+                            cf = fx.fns.get(fv)
+                            if cf is not None and cf in self.fns and cf.argc >= 2:
+                                if self._set(cf, 2, self.operand_role(f, args[0])):
+                                    changed = True
                     r = NONE
                     if o in TRANSPARENT or p in TRANSPARENT:
                         for i in (TRANSPARENT.get(o) or TRANSPARENT.get(p)):
